@@ -169,6 +169,13 @@ def printed_forms(repo, rep):
     for q, wrap, scale in (("Angle.dms_str", 360, F(1)), ("Angle.ra_str", 24, F(1, 15))):
         site = "%s.%s" % (MOD, q)
         t = terms[q]
+        # the object's own comparison tolerance (settable with set_tolerance(), copied by Angle(other)) is part of the Angle: if the printing
+        # term reads it, it becomes one more dimension of the table - the clauses must hold whatever it was set to
+        tol_nodes = set(x for x in T.walk(t) if x[0] == "attr" and x[2] == "_tol")
+        TOLS = T.sym("NUM_OBJTOL")
+        if tol_nodes:
+            t = T.subst(t, {x: TOLS for x in tol_nodes})
+        tol_reps = [F("1e-10"), F(0), F("1e-3")] if tol_nodes else [F("1e-10")]
         # constants the fields are compared with, beyond 0 / 60 / 360 and tolerances: added to the representatives
         extra = set()
         for x in T.walk(t):
@@ -199,13 +206,13 @@ def printed_forms(repo, rep):
         fails = {}
         n_cls = 0
         err = None
-        for fancy in (True, False):
-            for nd in (-1, 0, 2):
+        for fancy, otol in [(f_, o_) for f_ in (True, False) for o_ in tol_reps]:
+            for nd in (-1, 0, 2) + ((3, 4) if tol_nodes else ()):
                 for d in d_reps:
                     for m in m_reps:
-                        for s_ in s_reps:
+                        for s_ in s_reps + ([F("59.9996"), F("59.9995")] if tol_nodes else []):
                             for sg in (F(1), F(-1)):
-                                env = {T.sym("FANCY"): fancy, T.sym("NUM_NDEC"): F(nd), "$dms": (d, m, s_, sg)}
+                                env = {T.sym("FANCY"): fancy, T.sym("NUM_NDEC"): F(nd), "$dms": (d, m, s_, sg), TOLS: otol}
                                 try:
                                     out = eval_exact(t, env, prims)
                                 except NotEvaluable as e:
@@ -215,7 +222,8 @@ def printed_forms(repo, rep):
                                     err = "%s: %s" % (type(e).__name__, e)
                                     break
                                 n_cls += 1
-                                cls = "(d, m, s, sign) = (%s, %s, %s, %+d), n_dec=%d, fancy=%s" % (d, m, float(s_), sg, nd, fancy)
+                                cls = "(d, m, s, sign) = (%s, %s, %s, %+d), n_dec=%d, fancy=%s%s" % (d, m, float(s_), sg, nd, fancy,
+                                                                                                       "" if not tol_nodes else ", object tolerance %g" % float(otol))
                                 if not isinstance(out, str):
                                     fails.setdefault("not-a-string", (cls, repr(out)))
                                     continue
